@@ -197,6 +197,18 @@ def open_checks(ct, cd, rep, rule="open-checks"):
             okk = seen_raw and seen_guard
             break
     enter = ct.prog.need_method(ct.tdf, "__enter__")
+    # opening never creates, replaces or deletes a file: 'a path that does not start with the signature is refused' - an open path
+    # that turns an empty / foreign file into a container (unlink + new, a create-mode open, a copy) changes an existing file the
+    # caller only asked to open, and makes the signature check pass on what it has just written itself
+    for f_ in (init, enter):
+        for c_ in [x for x in ast.walk(f_.node) if isinstance(x, ast.Call)]:
+            nm = norm(c_.func)
+            at = c_.func.attr if isinstance(c_.func, ast.Attribute) else None
+            creating = [k for k in creating_calls([c_]) if "x" not in k[3] and set(k[3] or "w") & set("wa")]
+            if nm in ("os.remove", "os.unlink", "os.rename", "os.replace", "os.truncate", "shutil.move", "shutil.copyfile", "shutil.copy", "shutil.copy2", "Tdf.new", "cls.new", "self.new", "Tdf.copy") \
+                    or (at in ("unlink", "rename", "write_bytes", "write_text", "touch") and not isinstance(c_.func.value, ast.Constant)) or creating:
+                rep.fail(rule, ct.mod.path.name, f"Tdf.{f_.name}", c_, f"`{norm(c_)[:60]}` on the open path: opening a file creates, replaces or deletes one - a path that is not a TDF is turned into one instead of being refused",
+                         construct=f"Tdf.{f_.name} open path calls {nm}")
     if okk:
         n = ct.ctx.const_int(sig_raw.nbytes) if sig_raw.nbytes is not None else None
         rep.ok(rule, f"Tdf.__enter__: the first {n} bytes are compared with SIGNATURE and a mismatch raises before any field is decoded", nontrivial=True)
@@ -285,6 +297,26 @@ def _hand_copy(ct, f, fq, rep, rule, dsts):
                 exempt.add(id(c))
                 rep.ok(rule, f"{fq}: {dv}.write({sv}.read()) moves the whole content", nontrivial=True)
                 done = True
+            elif isinstance(c.func, ast.Attribute) and c.func.attr == "write" and norm(c.func.value) == dv and len(c.args) == 1 \
+                    and isinstance(c.args[0], ast.Call) and isinstance(c.args[0].func, ast.Attribute) and c.args[0].func.attr == "read" \
+                    and norm(c.args[0].func.value) == sv and len(c.args[0].args) == 1 and not c.args[0].keywords:
+                # one bounded read: complete only if the bound IS the size the file has now
+                exempt.add(id(c))
+                done = True
+                bound = c.args[0].args[0]
+                fs = ("self.file_path.stat().st_size", "os.path.getsize(self.file_path)", "os.stat(self.file_path).st_size")
+                okb = norm(bound) in fs
+                if norm(bound) == "self.nBytes":
+                    g = ct.tdf.get("nBytes", "getter")
+                    if ct.tdf.get("nBytes", "cached") is None and g is not None:
+                        from ..facts import return_leaves
+                        lv = return_leaves(g.node)
+                        okb = bool(lv) and all(v is not None and norm(v) in fs for _, v, _ in lv)
+                if okb:
+                    rep.ok(rule, f"{fq}: one read bounded by the file's current size moves the whole content", nontrivial=True)
+                else:
+                    rep.fail(rule, ct.mod.path.name, fq, c, f"`{norm(c)[:70]}` copies at most `{norm(bound)}` bytes, which is not (provably) the size the source has now (a remembered / computed size): "
+                             "a source that has grown since is copied only in part - not a byte-identical copy", construct=f"{fq} bounded read {norm(bound)}")
         if done:
             n += 1
             continue
